@@ -178,10 +178,10 @@ end
 
 theorem validateTypeOnly_eq (env : Env) (t : PTy) (v : PyVal) :
     (typeOnlyB env t v = true ∧ validateTypeOnly env t v = .ok ()) ∨
-    (typeOnlyB env t v = false ∧ isUserTy t = true ∧ IsVerr (validateTypeOnly env t v)) ∨
-    (typeOnlyB env t v = false ∧ isUserTy t = false ∧ validateTypeOnly env t v = .error (.crash "AttributeError")) := by
+    (typeOnlyB env t v = false ∧ isUserTyC08 t = true ∧ IsVerr (validateTypeOnly env t v)) ∨
+    (typeOnlyB env t v = false ∧ isUserTyC08 t = false ∧ validateTypeOnly env t v = .error (.crash "AttributeError")) := by
   cases hn : t.flags.nullable <;> cases t <;> simp only [PTy.flags] at hn <;> cases v <;>
-  simp [hn, typeOnlyB, classSat, validateTypeOnly, isUserTy, isNoneV, unionSat, structTypeOk, unionTypeOk, PTy.flags, crash] <;>
+  simp [hn, typeOnlyB, classSat, validateTypeOnly, isUserTyC08, isNoneV, unionSat, structTypeOk, unionTypeOk, PTy.flags, crash] <;>
   grind
 
 /-! ### slots -/
@@ -321,7 +321,7 @@ def slotsAfter (E : Ext) (f : FieldDef) (slots : List (String × PyVal)) (x : Py
 theorem attrSet_spec (E : Ext) (env : Env) (f : FieldDef) (slots : List (String × PyVal)) (x : PyVal) :
     (fieldSat E env f x = true ∧ attrSet E env f slots x = .ok (slotsAfter E f slots x)) ∨
     (fieldSat E env f x = false ∧ IsVerr (attrSet E env f slots x)) ∨
-    (fieldSat E env f x = false ∧ f.attrUserDefined = true ∧ isUserTy f.ty = false ∧
+    (fieldSat E env f x = false ∧ f.attrUserDefined = true ∧ isUserTyC08 f.ty = false ∧
       attrSet E env f slots x = .error (.crash "AttributeError")) := by
   rw [attrSet_unfold]
   cases hN : (f.attrNullable && isNoneV x)
@@ -386,15 +386,15 @@ theorem mkUnion_unfold (E : Ext) (env : Env) (cls tag : String) (x : PyVal) (u :
       | some t =>
         if !t.flags.nullable && isVoidT t then
           (if isNoneV x then .ok (.union cls tag .none) else verr "void member must have None value")
-        else if !t.flags.nullable && isUserTy t then (validateTypeOnly env t x).map fun _ => .union cls tag x
+        else if !t.flags.nullable && isUserTyC08 t then (validateTypeOnly env t x).map fun _ => .union cls tag x
         else (validate E env t x).map fun _ => .union cls tag x := by
   simp only [mkUnion, hu]
   cases u.ctorValidator tag with
   | none => rfl
   | some t =>
-    cases t <;> cases x <;> simp [isVoidT, isUserTy, isNoneV, bind, Except.bind, pure, Except.pure, Except.map] <;> rfl
+    cases t <;> cases x <;> simp [isVoidT, isUserTyC08, isNoneV, bind, Except.bind, pure, Except.pure, Except.map] <;> rfl
 
-theorem validateTypeOnly_good (env : Env) (t : PTy) (v : PyVal) (ht : isUserTy t = true) :
+theorem validateTypeOnly_good (env : Env) (t : PTy) (v : PyVal) (ht : isUserTyC08 t = true) :
     Good (typeOnlyB env t v) (validateTypeOnly env t v) () := by
   rcases validateTypeOnly_eq env t v with ⟨a, b⟩ | ⟨a, c, b⟩ | ⟨a, c, b⟩
   · exact Or.inl ⟨a, b⟩
@@ -416,9 +416,9 @@ theorem mkUnion_good (E : Ext) (env : Env) (cls tag : String) (x : PyVal) (u : U
       subst this
       simp
   · simp only [hV, if_false]
-    by_cases hS : (!t.flags.nullable && isUserTy t) = true
+    by_cases hS : (!t.flags.nullable && isUserTyC08 t) = true
     · simp only [hS, if_true]
-      have hut : isUserTy t = true := by simp at hS; exact hS.2
+      have hut : isUserTyC08 t = true := by simp at hS; exact hS.2
       exact (validateTypeOnly_good env t x hut).map _
     · simp only [hS, if_false]
       have := (validate_spec E env t x).map fun _ => PyVal.union cls tag x
